@@ -67,6 +67,8 @@ struct Cfg {
     int_consts: BTreeMap<String, i64>,
     unreachable: Option<String>,
     take_stmts: Option<usize>,
+    self_fields: Vec<String>,
+    loop_fuel: u64,
     tail: Option<String>,
 }
 
@@ -123,12 +125,20 @@ struct Tr<'a> {
     cfg: &'a Cfg,
     known: &'a BTreeSet<String>,
     ctr: std::cell::Cell<usize>,
+    /// innermost loop last: (state variables, whether the loop body contains `return`)
+    loops: std::cell::RefCell<Vec<(Vec<String>, bool)>>,
 }
 
 fn has_return_expr(e: &Expr) -> bool {
     struct V(bool);
     impl<'ast> visit::Visit<'ast> for V {
         fn visit_expr_return(&mut self, _: &'ast ExprReturn) {
+            self.0 = true;
+        }
+        fn visit_expr_break(&mut self, _: &'ast ExprBreak) {
+            self.0 = true;
+        }
+        fn visit_expr_continue(&mut self, _: &'ast ExprContinue) {
             self.0 = true;
         }
         fn visit_expr_closure(&mut self, _: &'ast ExprClosure) {}
@@ -142,6 +152,12 @@ fn has_return_stmts(stmts: &[Stmt]) -> bool {
     struct V(bool);
     impl<'ast> visit::Visit<'ast> for V {
         fn visit_expr_return(&mut self, _: &'ast ExprReturn) {
+            self.0 = true;
+        }
+        fn visit_expr_break(&mut self, _: &'ast ExprBreak) {
+            self.0 = true;
+        }
+        fn visit_expr_continue(&mut self, _: &'ast ExprContinue) {
             self.0 = true;
         }
         fn visit_expr_closure(&mut self, _: &'ast ExprClosure) {}
@@ -173,6 +189,16 @@ fn assigned_vars(stmts: &[Stmt], out: &mut Vec<String>) {
             visit::Visit::visit_pat(&mut PV(&mut self.declared), &l.pat);
         }
         fn visit_expr_assign(&mut self, a: &'ast ExprAssign) {
+            if let Expr::Field(f) = &*a.left {
+                if let (Expr::Path(bp), Member::Named(n)) = (&*f.base, &f.member) {
+                    if bp.path.is_ident("self") {
+                        let n = format!("self_{}", n);
+                        if !self.out.contains(&n) {
+                            self.out.push(n);
+                        }
+                    }
+                }
+            }
             if let Expr::Path(p) = &*a.left {
                 let n = p.path.segments.last().unwrap().ident.to_string();
                 if !self.declared.contains(&n) && !self.out.contains(&n) {
@@ -184,6 +210,16 @@ fn assigned_vars(stmts: &[Stmt], out: &mut Vec<String>) {
         fn visit_expr_binary(&mut self, b: &'ast ExprBinary) {
             use BinOp::*;
             if matches!(b.op, AddAssign(_) | SubAssign(_) | MulAssign(_) | DivAssign(_) | BitAndAssign(_) | BitOrAssign(_) | BitXorAssign(_)) {
+                if let Expr::Field(f) = &*b.left {
+                    if let (Expr::Path(bp), Member::Named(n)) = (&*f.base, &f.member) {
+                        if bp.path.is_ident("self") {
+                            let n = format!("self_{}", n);
+                            if !self.out.contains(&n) {
+                                self.out.push(n);
+                            }
+                        }
+                    }
+                }
                 if let Expr::Path(p) = &*b.left {
                     let n = p.path.segments.last().unwrap().ident.to_string();
                     if !self.declared.contains(&n) && !self.out.contains(&n) {
@@ -389,6 +425,11 @@ impl<'a> Tr<'a> {
                 Ok(format!("(T{}.mk {})", parts.len(), parts.join(" ")))
             }
             Expr::Field(f) => {
+                if let (Expr::Path(bp), Member::Named(n)) = (&*f.base, &f.member) {
+                    if bp.path.is_ident("self") && self.cfg.self_fields.contains(&n.to_string()) {
+                        return Ok(format!("self_{}", n));
+                    }
+                }
                 let base = self.expr(&f.base)?;
                 match &f.member {
                     Member::Unnamed(i) => Ok(format!("{}.t{}", base, i.index)),
@@ -549,10 +590,9 @@ impl<'a> Tr<'a> {
         }
         match e {
             Expr::Paren(p) => self.expr_k(&p.expr, k),
-            Expr::Return(r) => match &r.expr {
-                Some(x) => self.expr(x),
-                None => Ok("()".into()),
-            },
+            Expr::Return(r) => self.ret_value(&r.expr),
+            Expr::Break(_) => self.loop_jump(true),
+            Expr::Continue(_) => self.loop_jump(false),
             Expr::If(i) => {
                 let a = self.stmts(&i.then_branch.stmts, k)?;
                 let b = match &i.else_branch {
@@ -685,6 +725,13 @@ impl<'a> Tr<'a> {
     }
 
     fn assign_name(&self, left: &Expr) -> R<String> {
+        if let Expr::Field(f) = left {
+            if let (Expr::Path(bp), Member::Named(n)) = (&*f.base, &f.member) {
+                if bp.path.is_ident("self") && self.cfg.self_fields.contains(&n.to_string()) {
+                    return Ok(format!("self_{}", n));
+                }
+            }
+        }
         if let Expr::Path(p) = left {
             if p.path.segments.len() == 1 {
                 return Ok(ident(&p.path.segments[0].ident.to_string()));
@@ -723,6 +770,13 @@ impl<'a> Tr<'a> {
         let (first, rest) = stmts.split_first().unwrap();
         match first {
             Stmt::Local(l) => {
+                if l.init.is_none() {
+                    // `let mut x;` assigned later: start from the default value (never read before the first assignment in Rust)
+                    let mut out = String::new();
+                    self.bind_pat(&l.pat, "default", &mut out)?;
+                    out.push_str(&self.stmts(rest, k)?);
+                    return Ok(out);
+                }
                 let init = l.init.as_ref().ok_or_else(|| format!("`let` without initialiser: `{}`", tok(l)))?;
                 if init.diverge.is_some() {
                     return Err("`let … else` unsupported".into());
@@ -761,10 +815,11 @@ impl<'a> Tr<'a> {
             Stmt::Expr(e, semi) => {
                 let is_last = rest.is_empty();
                 match e {
-                    Expr::Return(r) => match &r.expr {
-                        Some(x) => self.expr(x),
-                        None => Ok("()".into()),
-                    },
+                    Expr::Return(r) => self.ret_value(&r.expr),
+                    Expr::Break(_) => self.loop_jump(true),
+                    Expr::Continue(_) => self.loop_jump(false),
+                    Expr::Loop(l) => self.loop_fuel(&l.body, None, rest, k),
+                    Expr::While(w) => self.loop_fuel(&w.body, Some(&w.cond), rest, k),
                     Expr::Assign(a) => {
                         let n = self.assign_name(&a.left)?;
                         let v = self.expr(&a.right)?;
@@ -847,6 +902,120 @@ impl<'a> Tr<'a> {
                 }
             }
         }
+    }
+
+    /// value of `return e` at the current position (inside a loop body it leaves the loop with a `ret` exit)
+    fn ret_value(&self, e: &Option<Box<Expr>>) -> R<String> {
+        let v = match e {
+            Some(x) => self.expr(x)?,
+            None => "()".into(),
+        };
+        let v = self.with_state(v);
+        if self.loops.borrow().is_empty() {
+            Ok(v)
+        } else {
+            Ok(format!("(Sum.inr (LoopExit.ret {}))", v))
+        }
+    }
+
+    /// with `self_fields`, every value the function returns is paired with the final values of those fields
+    fn with_state(&self, v: String) -> String {
+        if self.cfg.self_fields.is_empty() {
+            v
+        } else {
+            let fields: Vec<String> = self.cfg.self_fields.iter().map(|f| format!("self_{}", f)).collect();
+            format!("(T2.mk {} {})", v, self.tuple_of(&fields))
+        }
+    }
+
+    fn loop_jump(&self, is_break: bool) -> R<String> {
+        let loops = self.loops.borrow();
+        let (vars, has_ret) = loops.last().ok_or("`break`/`continue` outside a loop")?;
+        let tuple = self.tuple_of(vars);
+        Ok(if !is_break {
+            format!("(Sum.inl {})", tuple)
+        } else if *has_ret {
+            format!("(Sum.inr (LoopExit.brk {}))", tuple)
+        } else {
+            format!("(Sum.inr {})", tuple)
+        })
+    }
+
+    /// `loop { body }` / `while cond { body }` / `while let Some(p) = v.pop() { body }`: iteration with fuel over the tuple of
+    /// variables the body assigns (`iterFuel`); `break`, `continue` and `return` inside the body become exits of the step function
+    fn loop_fuel(&self, body: &Block, cond: Option<&Expr>, rest: &[Stmt], k: K) -> R<String> {
+        let mut vars = vec![];
+        assigned_vars(&body.stmts, &mut vars);
+        // `while let Some(x) = stack.pop()`: the stack is state too
+        let mut pop_of: Option<(String, &Pat)> = None;
+        if let Some(Expr::Let(l)) = cond {
+            if let Expr::MethodCall(m) = &*l.expr {
+                if m.method == "pop" {
+                    let recv = self.assign_name(&m.receiver)?;
+                    if let Pat::TupleStruct(ts) = &*l.pat {
+                        if self.path_str(&ts.path) == "Some" && ts.elems.len() == 1 {
+                            if !vars.contains(&recv) { vars.push(recv.clone()); }
+                            pop_of = Some((recv, &ts.elems[0]));
+                        }
+                    }
+                }
+            }
+            if pop_of.is_none() {
+                return Err(format!("`while let` only supported as `while let Some(p) = v.pop()`: `{}`", tok(l)));
+            }
+        }
+        struct RV(bool);
+        impl<'ast> visit::Visit<'ast> for RV {
+            fn visit_expr_return(&mut self, _: &'ast ExprReturn) { self.0 = true; }
+            fn visit_expr_closure(&mut self, _: &'ast ExprClosure) {}
+        }
+        let mut rv = RV(false);
+        visit::Visit::visit_block(&mut rv, body);
+        let has_ret = rv.0;
+        self.ctr.set(self.ctr.get() + 1);
+        let n = self.ctr.get();
+        let st = format!("st_{}", n);
+        let tuple = self.tuple_of(&vars);
+        self.loops.borrow_mut().push((vars.clone(), has_ret));
+        let result: R<String> = (|| {
+            let mut step = String::new();
+            self.rebind_from(&vars, &st, &mut step);
+            let brk = self.loop_jump(true)?;
+            let mut body_code = self.stmts(&body.stmts, &|_| self.loop_jump(false))?;
+            match (cond, &pop_of) {
+                (Some(_), Some((recv, pat))) => {
+                    let mut binds = String::new();
+                    self.bind_pat(pat, "popped_", &mut binds)?;
+                    body_code = format!("(match (List.getLast? {r}) with\n| some popped_ =>\nlet {r} := (List.dropLast {r})\n{b}{body}\n| none =>\n{brk})", r = recv, b = binds, body = body_code, brk = brk);
+                }
+                (Some(c), None) => {
+                    let c = self.expr(c)?;
+                    body_code = format!("(if {} then\n{}\nelse\n{})", c, body_code, brk);
+                }
+                (None, _) => {}
+            }
+            step.push_str(&body_code);
+            Ok(step)
+        })();
+        self.loops.borrow_mut().pop();
+        let step = result?;
+        let fuel = self.cfg.loop_fuel;
+        let upd = format!("upd_{}", n);
+        let mut out = String::new();
+        if has_ret {
+            writeln!(out, "let {} := (iterFuel {} (fun {} =>\n{}) (fun {} => LoopExit.brk {}) {})", upd, fuel, st, step, st, st, tuple).unwrap();
+            let mut after = String::new();
+            self.rebind_from(&vars, "brk_", &mut after);
+            after.push_str(&self.stmts(rest, k)?);
+            // a `ret` exit of an inner loop propagates as the value of the function (or as a `ret` exit of the enclosing loop)
+            let ret_out = if self.loops.borrow().is_empty() { "ret_".to_string() } else { "(Sum.inr (LoopExit.ret ret_))".to_string() };
+            write!(out, "(match {} with\n| LoopExit.brk brk_ =>\n{}\n| LoopExit.ret ret_ => {})", upd, after, ret_out).unwrap();
+        } else {
+            writeln!(out, "let {} := (iterFuel {} (fun {} =>\n{}) (fun {} => {}) {})", upd, fuel, st, step, st, st, tuple).unwrap();
+            self.rebind_from(&vars, &upd, &mut out);
+            out.push_str(&self.stmts(rest, k)?);
+        }
+        Ok(out)
     }
 
     /// `for pat in iter { body }` over a list: a left fold whose state is the tuple of variables the body assigns
@@ -1226,6 +1395,8 @@ fn main() {
             cfg.unreachable = get_str(t, "unreachable");
             cfg.take_stmts = t.get("take_stmts").and_then(|x| x.as_u64()).map(|x| x as usize);
             cfg.tail = get_str(t, "tail");
+            cfg.self_fields = t.get("self_fields").and_then(|x| x.as_array()).map(|a| a.iter().filter_map(|x| x.as_str().map(|s| s.to_string())).collect()).unwrap_or_default();
+            cfg.loop_fuel = t.get("loop_fuel").and_then(|x| x.as_u64()).unwrap_or(100000);
             if let Some(Value::Object(m)) = t.get("int_consts") {
                 for (a, b) in m {
                     if let Some(v) = b.as_i64() {
@@ -1261,7 +1432,7 @@ fn main() {
                 errors.push(format!("{}: item `{}` found {} times in {}", cfg.name, cfg.item, found.len(), cfg.file));
                 continue;
             }
-            let tr = Tr { cfg: &cfg, known: &known, ctr: std::cell::Cell::new(0) };
+            let tr = Tr { cfg: &cfg, known: &known, ctr: std::cell::Cell::new(0), loops: std::cell::RefCell::new(vec![]) };
             let result: R<(String, usize, usize, String)> = (|| match &found[0] {
                 Found::Const(c) => {
                     let v = tr.expr(&c.expr)?;
@@ -1326,10 +1497,10 @@ fn main() {
                         body_stmts.push(parse_str::<Stmt>(&format!("return {};", tail_key)).unwrap());
                         let mut cfg2 = cfg.clone();
                         cfg2.subst.push((norm(tail_key), tail));
-                        let tr2 = Tr { cfg: &cfg2, known: &known, ctr: std::cell::Cell::new(0) };
+                        let tr2 = Tr { cfg: &cfg2, known: &known, ctr: std::cell::Cell::new(0), loops: std::cell::RefCell::new(vec![]) };
                         body.push_str(&tr2.stmts(&body_stmts, &|v| Ok(v))?);
                     } else {
-                        body.push_str(&tr.stmts(&body_stmts, &|v| Ok(v))?);
+                        body.push_str(&tr.stmts(&body_stmts, &|v| Ok(tr.with_state(v)))?);
                     }
                     let nc = if cfg.noncomputable { "noncomputable " } else { "" };
                     Ok((format!("{}def {} {} : {} :=\n{}\n", nc, ident(&cfg.name), params, ret, body), lo, hi, text))
